@@ -1,11 +1,11 @@
 """C06 — deadlock / message-loss reports."""
 import simgen, oracles
-from props import simprops, poolprops
+from props import simprops, poolprops, strprops
 
 HARNESS = ("simh",)
 TRUSTED = ["the idle/park hand-off of the multi-threaded executor and the folding of per-thread message counters: modelled in Pool.v (see C04/C06 theorems there) and exercised on 2..16 threads with and without seeded delays at the protocol points (hooks nexosim::verif); a delayed run is timing-dependent, so a replay of such a case may need several attempts",
            "deadlock benches are deterministic (query loop-backs, self-saturation from one handler); schedule-dependent saturation cycles are not generated"]
-TRUSTED = TRUSTED + poolprops.TRUSTED
+TRUSTED = TRUSTED + poolprops.TRUSTED + strprops.TRUSTED
 ASSUMPTIONS = ["observer registration order = model ids (hierarchies are laid out in pre-order)"]
 ORACLES = (oracles.o_harness, oracles.o_deadlock_report, oracles.o_exactly_once, oracles.o_terminated)
 
@@ -17,6 +17,7 @@ def nontrivial(c, mobs):
 def tie(rep, tier, rng, model_ok):
     q = tier == "quick"
     poolprops.run(rep, tier, "C06")
+    strprops.run(rep, tier)
     a = simprops.corpus_cases("C06") + [simgen.gen_deadlock(rng) for _ in range(400 if q else 8000)]
     b = [simgen.gen_net(rng, hier=True) for _ in range(150 if q else 4000)]
     # seeded delays at the executor's protocol points (hooks nexosim::verif, cfg nexosim_verif): the
@@ -39,6 +40,6 @@ def tie(rep, tier, rng, model_ok):
 
 def replay(rep, path, model_ok):
     import json
-    if poolprops.replay(json.load(open(path))):
+    if strprops.replay(json.load(open(path))) or poolprops.replay(json.load(open(path))):
         return
     simprops.replay(rep, path, model_ok)
